@@ -351,12 +351,38 @@ class Model:
                 c = self.classes.get(cn)
                 if c and mn in c.aliases:
                     return self.func(f"{cn}.{c.aliases[mn]}", required=required)
+            moved = self._relocated(qualname)
+            if moved is not None:
+                return moved
             if required:
                 raise AnalysisError(f"anchor vanished: function {qualname}")
             return None
         if required:
             raise AnalysisError(f"ambiguous function name {qualname}")
         return None
+
+    def _relocated(self, qualname: str) -> Optional[Func]:
+        """A nested anchor `Outer.f._g` that no longer exists: if `Outer.f` still exists and calls exactly one *new* private
+        function (not a function of the reference tree), that function is the anchor, moved out of its closure."""
+        from .known_funcs import KNOWN_FUNCS
+
+        if qualname.count(".") < 1:
+            return None
+        parent_q = qualname.rsplit(".", 1)[0]
+        ps = self.by_qual.get(parent_q, [])
+        if len(ps) != 1:
+            return None
+        parent = ps[0]
+        called = set()
+        for n in ast.walk(parent.node):
+            if isinstance(n, ast.Call):
+                if isinstance(n.func, ast.Attribute):
+                    called.add(n.func.attr)
+                elif isinstance(n.func, ast.Name):
+                    called.add(n.func.id)
+        cands = [g for g in self.all_funcs() if g.parent is None and g.name in called and g.name.startswith("_") and not g.name.startswith("__")
+                 and f"{g.module}:{g.qualname}" not in KNOWN_FUNCS]
+        return cands[0] if len(cands) == 1 else None
 
     def lookup(self, cls: str, name: str) -> Optional[Func]:
         """Resolve attribute `name` on class `cls` along the MRO."""
